@@ -297,6 +297,13 @@ Definition mon_C08 (m : mstate) (pre : obs) (o : op) (sc : script) (x : out) (po
 
 (* ---------- C01: breaches are answered ---------- *)
 (* one row (d, u) whose dispute d is observed with the tower at height h (new block or cache hit) *)
+(* the penalty p was submitted while the tower was at height h, or the tower had a reason not to (it is in a block the
+   responder's index covers, the node said it has it in its mempool, or it was handed over earlier in this very block) *)
+Definition penalty_handed (m : mstate) (h : N) (sc : script) (rpcs : list (rpc_kind * N)) (p : N) : bool :=
+  let in_index := memN p (chain_txs_above m (Z.of_N h - Consts.RESPONDER_INDEX_SIZE)) in
+  in_index || (queried rpcs p && match fst (script_get sc p) with G_in_mempool => true | _ => false end)
+  || sent rpcs p || in_memo m p.
+
 Definition breach_answered (m : mstate) (h : N) (sc : script) (rpcs : list (rpc_kind * N))
            (d : N) (a : app) (post : obs) : bool :=
   let uuid := app_uuid a in
@@ -304,10 +311,7 @@ Definition breach_answered (m : mstate) (h : N) (sc : script) (rpcs : list (rpc_
   match decrypt (a_blob a) d with
   | None => negb has_row                                        (* undecryptable: only that appointment is dropped *)
   | Some p =>
-      let in_index := memN p (chain_txs_above m (Z.of_N h - Consts.RESPONDER_INDEX_SIZE)) in
-      (* the penalty was submitted, or the tower had a reason not to *)
-      (in_index || (queried rpcs p && match fst (script_get sc p) with G_in_mempool => true | _ => false end)
-       || sent rpcs p || in_memo m p)
+      penalty_handed m h sc rpcs p
       && match penalty_verdict m h sc p with
          | V_accepted => existsb (fun k => uuid_eqb (trk_uuid k) uuid && N.eqb (t_dispute k) d && N.eqb (t_penalty k) p) (o_trks post)
          | V_rejected => negb has_row
@@ -333,7 +337,17 @@ Definition mon_C01 (m : mstate) (pre : obs) (o : op) (sc : script) (x : out)
                       implb (memN (fst uuid) txs && has_user post (snd uuid)
                              && negb (existsb (fun k => uuid_eqb (trk_uuid k) uuid) (o_trks pre)))
                             (breach_answered m h sc rpcs (fst uuid) (mk_app (fst uuid) (snd uuid) (snd e) 0 0 0) post))
-                   (m_owed m)) 1
+                   (m_owed m)) 1 ++
+      (* a row that already HAS a tracker and whose dispute is confirmed again (mined again after a reorg): "a transaction whose id
+         starts with the locator is confirmed in a block the tower then processes" holds here too - the penalty is handed to the node
+         while this block is handled unless the node or the index already has it (the responder's own cadence, C04, is not enough) *)
+      chk (forallb (fun a =>
+                      implb (memN (a_loc a) txs && has_user post (a_user a)
+                             && existsb (fun k => uuid_eqb (trk_uuid k) (app_uuid a)) (o_trks pre))
+                            (match decrypt (a_blob a) (a_loc a) with
+                             | None => true
+                             | Some p => penalty_handed m h sc rpcs p
+                             end)) (o_apps pre)) 1
   | OAdd (Some u) loc b delay sig, OAddRes (AddOk start _ _ _) =>
       (* code 1: the dispute is in a block the cache holds; code 101: it is in one of the six most
          recent blocks but the cache is truncated at this moment (known finding, DESIGN.md section 6) *)
